@@ -180,7 +180,7 @@ fn step_r<T: Object>(st: &mut St, p: Primitive) -> Vec<Vec<u8>> {
     let r = st.resolver();
     match T::from_primitive(p, &r) {
         Err(e) => vec![chain(&e).into_bytes()],
-        Ok(_) => vec![b"ok".to_vec(), b"-".to_vec(), b"-".to_vec()],
+        Ok(_) => vec![b"ok".to_vec(), vec![], vec![]],
     }
 }
 
